@@ -9,7 +9,7 @@ Oracle : a 30-line transcription of the statement (model.time_windows): referenc
 """
 import itertools
 
-from ..common import Check, Outcome, bootstrap, interleave
+from ..common import Check, Outcome, bootstrap, interleave, with_prelude, prelude_tags, shrink_prelude, PRELUDE_TAGS
 from .. import windows, model
 
 rs = bootstrap()
@@ -42,10 +42,13 @@ class C07(Check):
     ASSUMPTIONS = ['timestamps are non-decreasing per key; timeouts are >= 0 (a zero timeout makes every item open a new window, as the statement says)',
                    'closing_mapper returns a bool']
     ANCHORS = ['rxsci/data/time_split.py', 'rxsci/operators/multiplex.py']
-    REQUIRED_TAGS = ['top', 'group', 'active', 'inactive', 'no-timeout', 'closing', 'include', 'exclude', 'datetime', 'equal-timestamps', 'gap=timeout', 'day-scale', 'zero-timeout']
+    REQUIRED_TAGS = ['top', 'group', 'active', 'inactive', 'no-timeout', 'closing', 'include', 'exclude', 'datetime', 'equal-timestamps', 'gap=timeout', 'day-scale', 'zero-timeout'] + PRELUDE_TAGS
     REQUIRED_OBSERVED = ['child_lifetimes_checked', 'parent_lifetimes_checked', 'empty_windows_dropped']
 
     def generate(self, rng, tier, shard, nshards):
+        return with_prelude(self._generate(rng, tier, shard, nshards), rng)
+
+    def _generate(self, rng, tier, shard, nshards):
         return interleave(self._box(tier, shard, nshards), self._random(rng, tier))
 
     def _box(self, tier, shard, nshards):
@@ -113,7 +116,8 @@ class C07(Check):
             out.tags.append('equal-timestamps')
         if (cfg['active'] in gaps) or (cfg['inactive'] in gaps):
             out.tags.append('gap=timeout')
-        ob = windows.observe(case['parent_node'], ['time_split', cfg, None], items)
+        ob = windows.observe(case['parent_node'], ['time_split', cfg, None], items, prelude=case.get('prelude'))
+        prelude_tags(case, out)
         if ob.snap.err is not None or not ob.snap.done:
             return out.fail('time_split:stream-error', error=repr(ob.snap.err), done=ob.snap.done)
         if ob.odd or ob.orphans:
@@ -142,6 +146,7 @@ class C07(Check):
         return {'shards_that_enumerated_their_part_of_the_box_completely': self.box_done}
 
     def shrink(self, case):
+        yield from shrink_prelude(case)
         items = case['items']
         for k in range(len(items)):
             yield dict(case, items=items[:k] + items[k + 1:])
